@@ -3,6 +3,6 @@ SPECIFICATION Spec
 CONSTANTS
   N = 3
   NCSets <- NCNone
-  Configs <- CurrentConfigs
+  Configs <- DirectoryConfigs
 INVARIANT ResumeOK
 INVARIANT RerunCompletes
